@@ -720,6 +720,7 @@ class Interp:
                         len(returned.elts) == len(target.elts) and \
                         isinstance(elt, ast.Name) and aug is None:
                     self._constant_flag(st, elt.id, returned.elts[position])
+                    self._display_length(st, elt.id, returned.elts[position])
             return
         if isinstance(target, ast.Starred):
             return self._store(target.value, None, st, fr, stmt, aug)
@@ -740,6 +741,7 @@ class Interp:
                 st.facts.pop(('comp-elements', str(id(value))), False))
         if isinstance(target, ast.Name) and aug is None:
             self._constant_flag(st, target.id, value)
+            self._display_length(st, target.id, value)
             if isinstance(value, (ast.Call, ast.Await)):
                 # `ok = self._helper()` where the helper, run in place, returned a constant
                 self._constant_flag(st, target.id, self._helper_returned(value, st))
@@ -752,6 +754,14 @@ class Interp:
             st.facts[('truth', name)] = bool(value.value)
             st.facts[('isnone', name)] = value.value is None
             st.facts[('constflag', name)] = True
+
+    @staticmethod
+    def _display_length(st: St, name: str, value):
+        """a local bound to a tuple display is walked exactly len(display) times"""
+        if isinstance(value, ast.Tuple) and not any(
+                isinstance(e, ast.Starred) for e in value.elts):
+            st.facts[('itercount', name)] = len(value.elts)
+            st.facts[('truth', name)] = bool(value.elts)
 
     @staticmethod
     def _helper_returned(value, st: St):
